@@ -104,7 +104,7 @@ func (fr *Frame) invoke(ins ssa.Instruction, cc *ssa.CallCommon, recv *Val, args
 // havocVars havocs whole state variables.
 func (fr *Frame) havocVars(vars []string) {
 	ex := fr.ex
-	for _, v := range vars {
+	for _, v := range allocFirst(vars) {
 		if v == "alloc" {
 			old := ex.get(fr.cur, "alloc")
 			n := ex.havoc(fr.cur, "alloc")
@@ -262,7 +262,12 @@ func (fr *Frame) applyContract(ins ssa.Instruction, c *Contract, key string, cal
 	for _, evn := range c.Events {
 		g := fr.ghost(evn.Label)
 		v := ex.tr(evn.Expr, env)
-		ex.set(fr.cur, g, "(seq.++ "+ex.get(fr.cur, g)+" (seq.unit "+v.T+"))")
+		ex.set(fr.cur, g, sqApp(ex.get(fr.cur, g), sqUnit(v.T, ex.svSort(g).Elem), ex.svSort(g).Elem))
+	}
+	for _, evn := range c.REvents {
+		g := fr.ghost(evn.Label)
+		v := ex.tr(evn.Expr, env2)
+		ex.set(fr.cur, g, sqApp(ex.get(fr.cur, g), sqUnit(v.T, ex.svSort(g).Elem), ex.svSort(g).Elem))
 	}
 	// reference results are allocated
 	fr.assumeResultsAllocated(res)
@@ -447,10 +452,7 @@ func (fr *Frame) builtin(ins ssa.Instruction, b *ssa.Builtin, cc *ssa.CallCommon
 		if x.S.K == KString {
 			return &Val{T: vc.define("append", SString, "(str.++ "+x.T+" "+y.T+")"), S: SString}
 		}
-		r := &Val{T: vc.define("append", x.S, "(seq.++ "+x.T+" "+y.T+")"), S: x.S}
-		// sound sequence lemma through the bridging function: elements of a concatenation
-		vc.assume("(forall ((k Int)) (! (=> (and (<= 0 k) (< k (seq.len " + r.T + "))) (= " + vc.nth(r.T, "k", x.S.Elem) + " (ite (< k (seq.len " + x.T + ")) " + vc.nth(x.T, "k", x.S.Elem) + " " + vc.nth(y.T, "(- k (seq.len "+x.T+"))", x.S.Elem) + "))) :pattern (" + vc.nth(r.T, "k", x.S.Elem) + ")))")
-		return r
+		return &Val{T: vc.define("append", x.S, sqApp(x.T, y.T, x.S.Elem)), S: x.S}
 	case "copy":
 		vc.unsupported("copy() builtin in " + fr.key)
 		return fr.havocVal("copy", SInt)
